@@ -224,7 +224,7 @@ func TestC05(t *testing.T) {
 		Level: "exploration",
 		Rule: "cases = versioning histories on s3mem; bounded-exhaustive: every program of length <= L (L=4 quick, 5 thorough) over a 9-op alphabet on one key after an initial Enable; " +
 			"random: rapid programs of 10-60 ops over 2 keys (put, browser-form POST, copy between the keys, one-part multipart uploads completed with other ops in between, delete, delete-version(ref), multi-delete with/without version refs, get, get/head-version(ref), set-versioning Enabled|Suspended), refs symbolic over all IDs ever issued; " +
-			"after EVERY step each remaining enabled-era version is read back by ID with GET and HEAD, the unqualified read is compared with the newest remaining entry, and ListObjectVersions is cross-checked; " +
+			"after EVERY step each remaining enabled-era version is read back by ID with GET and HEAD (every other version with the ETag of a different version of the key as If-None-Match, which it does not match), the unqualified read is compared with the newest remaining entry, and ListObjectVersions is cross-checked; " +
 			"non-trivial = the program deletes the newest version while older remain, writes/deletes while suspended with enabled-era versions present, deletes a delete marker, or re-enables after suspension",
 		Replay: c05Replay,
 		Run:    c05Run,
